@@ -100,10 +100,15 @@ def gen_for(prop, chk, tier):
     n = {"quick": 500, "thorough": 6000}[tier]
     cases = load_corpus(prop) + diamonds() + f1_cases()
     if prop == "C14":
-        small = 2 if tier == "quick" else 3
-        for tasks in all_small_graphs(small):
-            for root in range(small):
+        # every digraph on 2 names (+ an undefined one), every listing order, every root; thorough adds a stride through
+        # the ~275 000 digraphs on 3 names (x 3 roots), which are too many to run one by one
+        for tasks in all_small_graphs(2):
+            for root in range(2):
                 cases.append(Case([Task(t.status, t.deps, t.kind) for t in tasks], root=root))
+        if tier == "thorough":
+            for k, tasks in enumerate(all_small_graphs(3)):
+                if k % 37 == 0:
+                    cases.append(Case([Task(t.status, t.deps, t.kind) for t in tasks], root=k % 3))
         cases += [rand_case(rng, nmax=8, defects=0.7, fail=0.0, stop=0.0) for _ in range(n)]
     elif prop == "C03":
         cases += launch_fail_family(rng, n // 10)
